@@ -428,6 +428,8 @@ class Product:
         st['penv'] = I(0)
         st['oks'] = I(0)
         st['nh'] = I(1)
+        for i_ in range(self.nprod):
+            st['own:P%d' % i_] = I(1 if i_ == 0 else 0)
         st['na'] = I(0)
         st['spawn_overflow'] = z3.BoolVal(False)
         self.reg_syms = {}
@@ -620,13 +622,14 @@ class Product:
         mid = cur['mid:' + sl]
         if o.get('begin'):
             act = o['begin']
-            gbegin = z3.And(z3.ULT(cur['na'], A), z3.UGE(cur['nh'], 1))
+            gbegin = z3.And(z3.ULT(cur['na'], A), z3.UGE(cur['own:' + sl], 1))
             upd['na'] = cur['na'] + 1
             if act == 'emit':
                 upd['mid:' + sl] = cur['na']
                 mid = cur['na']
             if act == 'drop':
                 upd['nh'] = cur['nh'] - 1
+                upd['own:' + sl] = cur['own:' + sl] - 1
         if isinstance(out, tuple):
             out = out[1]
 
@@ -753,6 +756,14 @@ class Product:
                 upd[key] = z3.BoolVal(so['value']) if isinstance(so['value'], bool) else I(so['value'])
         if nh_plus:
             upd['nh'] = upd.get('nh', cur['nh']) + 1
+            if self.nprod == 1:
+                upd['own:' + sl] = upd.get('own:' + sl, cur['own:' + sl]) + 1
+            else:
+                # the new handle stays with the cloning thread or is handed to the other producer (free choice)
+                other = [p_ for p_ in self.slots if p_.startswith('P') and p_ != sl][0]
+                give = z3.Extract(0, 0, ndv) == 1
+                upd['own:' + sl] = z3.If(give, upd.get('own:' + sl, cur['own:' + sl]), upd.get('own:' + sl, cur['own:' + sl]) + 1)
+                upd['own:' + other] = z3.If(give, cur['own:' + other] + 1, cur['own:' + other])
         return z3.And(gbegin, g), choice, upd
 
     # ---- properties -------------------------------------------------------------------------------------
